@@ -36,6 +36,11 @@ def gen_case(r, tier):
         ops += [("select", i), ("timeouts", 2, 3)]
         if frag_off:
             ops.append(("fragmentation=", False))
+    if r.random() < 0.3:
+        # nodes that listen to another level's multicasts: routing is by address, not by the level they listen on
+        for i in range(n):
+            if r.random() < 0.5:
+                ops += [("select", i), ("multicast_level=", r.randrange(0, 5))]
     msgs = []
     for _ in range(r.randrange(1, 5)):
         si = r.choice(senders)
